@@ -52,6 +52,14 @@ def engine_cfg(conf):
     """the abstract configuration record handed to the driver (Engine!DefaultCfg shape)"""
     d = dict(DEFAULTS)
     d.update(conf)
+    extra = {}
+    if conf.get('dd'):
+        # the session parses with the shipped dictionary of its version (FIX.4.x only)
+        extra['dd'] = os.path.join(common.REPO, 'spec', 'FIX%d.xml' % d['bs'])
+    return dict(extra, **_engine_cfg(d))
+
+
+def _engine_cfg(d):
     return {'role': d['role'], 'bs': d['bs'], 'resetOnLogon': d['resetOnLogon'], 'resetOnLogout': d['resetOnLogout'],
             'resetOnDisconnect': d['resetOnDisconnect'], 'refreshOnLogon': False, 'chunk': d['chunk'],
             'persist': d['persist'], 'checkLatency': d['checkLatency'], 'hbOverride': d['hbOverride'], 'hbCfg': 30,
@@ -62,7 +70,7 @@ def conf_name(conf):
     d = dict(DEFAULTS)
     d.update(conf)
     flags = ''.join(c for c, k in (('L', 'resetOnLogon'), ('O', 'resetOnLogout'), ('D', 'resetOnDisconnect'),
-                                   ('H', 'hbOverride'), ('T', 'resetSeqTime'), ('S', 'schedule')) if d[k])
+                                   ('H', 'hbOverride'), ('T', 'resetSeqTime'), ('S', 'schedule')) if d[k]) + ('d' if conf.get('dd') else '')
     return '%s-%d-c%d%s%s%s' % (d['role'], d['bs'], d['chunk'], '' if d['persist'] else '-np',
                                 '' if d['checkLatency'] else '-nl', ('-' + flags) if flags else '')
 
